@@ -912,6 +912,9 @@ FIXED.append(
             {"name": "Skip", "parent": "Stmt", "fields": []},
             {"name": "Uses", "parent": "Stmt", "fields": [["n", ["ann", ["int"], ["IntRange", 0, 2]]], ["uses", ["ann", ["list", ["dep", ["str"], "n", "varrange_n", 0]], ["LSBWLO", 1, 3]]]]},
             {"name": "Uses2", "parent": "Stmt", "fields": [["n", ["ann", ["int"], ["IntRange", 0, 1]]], ["uses", ["ann", ["list", ["dep", ["str"], "n", "varrange_n", 0]], ["ListSizeBetween", 2, 3]]]]},
+            # (always completable, whatever is drawn for n: in the sub-languages without Skip the impossibility above is a matter
+            # of the values drawn, and a creation that runs out of alternatives for that reason is no statement's business)
+            {"name": "Uses3", "parent": "Stmt", "fields": [["n", ["ann", ["int"], ["IntRange", 1, 2]]], ["uses", ["ann", ["list", ["dep", ["str"], "n", "varrange_n", 0]], ["LSBWLO", 1, 2]]]]},
             {"name": "Seq", "parent": "Stmt", "fields": [["a", ["ref", "Stmt"]], ["b", ["ref", "Stmt"]]]},
         ],
         "start": "Stmt",
